@@ -1,0 +1,31 @@
+//go:build verif
+
+// Contracts for package optimizers, read by /verif/qv (comment-only file).
+
+package optimizers
+
+//@ func toValidSGDConfig
+//@   returns fresh
+//@   ensures[C17] conf != nil && conf.LearningRate == ite(iconf == nil, 0.01, iconf.LearningRate)
+
+//@ func NewSGD
+//@   public
+//@   returns fresh
+//@   ensures[C17,C09] c != nil && c.learningRate == ite(conf == nil, 0.01, conf.LearningRate)
+
+//@ func SGD.toValidInputs
+//@   requires imp(wptr != nil && *wptr != nil, tinv(*wptr))
+//@   ensures[C17,C09] iff(err == nil, wptr != nil && *wptr != nil && (*wptr).gctx.gradient != nil)
+//@   ensures[C17] imp(err == nil, w == *wptr && g == w.gctx.gradient)
+
+// C17: the update is w - lr * g element-wise; the old tensor object and its gradient are not written (no heap frame);
+// a gradient always has its owner's shape and is a library tensor (representation invariant gradInv)
+//@ func SGD.Update
+//@   wants same
+//@   public
+//@   requires imp(wptr != nil && *wptr != nil, tinv(*wptr) && gradInv(*wptr))
+//@   modifies *wptr
+//@   ensures[C17,C09] iff(err == nil, wptr != nil && old(*wptr) != nil && old(*wptr).gctx.gradient != nil)
+//@   ensures[C17] imp(err != nil && wptr != nil, *wptr == old(*wptr))
+//@   ensures[C17] imp(err == nil, *wptr != nil && sameShape(*wptr, old(*wptr)))
+//@   ensures[C17] imp(err == nil, forallJ(J, imp(inb(*wptr, J), el(*wptr, J) == el(old(*wptr), J) - c.learningRate * el(old(*wptr).gctx.gradient, J))))
